@@ -337,7 +337,7 @@ structure DState where
   r1 : Router
   cfg : RouterCfg
 
-def defaultCfg : RouterCfg := ⟨384, 10000, 10000, 67108864, ⟨false, false⟩⟩
+def defaultCfg : RouterCfg := ⟨384, 10000, 10000, 67108864⟩
 
 def DState.init : DState := ⟨fun _ => none, Router.new defaultCfg, Router.new defaultCfg, defaultCfg⟩
 
@@ -401,12 +401,12 @@ def parseEntries (s : String) : Option (List (Name × TData)) :=
 
 def storeStep (st : DState) (ws : List String) : Option (DState × String) :=
   match ws with
-  | ["rt_new", dim, cap, thr, seg, keep, prune] =>
-    match dim.toNat?, cap.toNat?, thr.toNat?, seg.toNat?, parseBool keep, parseBool prune with
-    | some dim, some cap, some thr, some seg, some keep, some prune =>
-      let cfg : RouterCfg := ⟨dim, cap, thr, seg, ⟨keep, prune⟩⟩
+  | ["rt_new", dim, cap, thr, seg] =>
+    match dim.toNat?, cap.toNat?, thr.toNat?, seg.toNat? with
+    | some dim, some cap, some thr, some seg =>
+      let cfg : RouterCfg := ⟨dim, cap, thr, seg⟩
       some ({ st with cfg := cfg, r0 := Router.new cfg, r1 := Router.new cfg }, "ok")
-    | _, _, _, _, _, _ => none
+    | _, _, _, _ => none
   | ["rt_put", r, key, data, victim] =>
     match getReg st r, parseName key, parseTData data, victim.toNat? with
     | some x, some key, some d, some victim => some (setReg st r (x.put key d victim), "ok")
@@ -444,7 +444,7 @@ def storeStep (st : DState) (ws : List String) : Option (DState × String) :=
     match parseBool ttok with
     | some ttok =>
       let sn := st.r0.snapshot (fun _ => ttok)
-      some ({ st with r0 := sn.1, r1 := Router.restore id st.cfg.fx sn.2 }, s!"ok {st.r0.entryCount}")
+      some ({ st with r0 := sn.1, r1 := Router.restore id sn.2 }, s!"ok {st.r0.entryCount}")
     | none => none
   | ["rt_adopt"] => some ({ st with r0 := st.r1 }, "ok")
   | ["rt_rfb", ttok] =>
@@ -452,18 +452,18 @@ def storeStep (st : DState) (ws : List String) : Option (DState × String) :=
     match parseBool ttok with
     | some ttok =>
       let sn := st.r0.snapshot (fun _ => ttok)
-      let new := Router.restore id st.cfg.fx sn.2
+      let new := Router.restore id sn.2
       some ({ st with r0 := sn.1, r1 := restoreFromBytes st.r1 new (new.scan []) }, "ok")
     | none => none
   | ["rt_quant", tt, delta] =>
     match parseBool tt, parseBool delta with
     | some tt, some delta =>
       let es := saveQuant ⟨tt, delta, true⟩ st.r0 (st.r0.scan [])
-      some ({ st with r1 := loadQuant id { defaultCfg with fx := st.cfg.fx } es }, s!"ok {es.length}")
+      some ({ st with r1 := loadQuant id defaultCfg es }, s!"ok {es.length}")
     | _, _ => none
   | ["rt_loadv2", entries] =>
     match parseEntries entries with
-    | some es => some ({ st with r1 := loadV2Entries { defaultCfg with fx := st.cfg.fx } es }, "ok")
+    | some es => some ({ st with r1 := loadV2Entries defaultCfg es }, "ok")
     | none => none
   | ["g_add", r, src, dst, ty, directed] =>
     match getReg st r, src.toNat?, dst.toNat?, parseName ty, parseBool directed with
